@@ -32,3 +32,19 @@ def F25_stale_iteration(v):
     iteration completes while its sibling has been offered but has not reported yet"""
     h = (v or {}).get("history") or ""
     return h.startswith("cycle/") and h.endswith("-not-started")
+
+
+def _history_is(*names):
+    def fn(v):
+        return bool(v) and v.get("history") in names
+    return fn
+
+
+F32_cancel_before_successor = _history_is("cancel-while-publisher-runs")
+F33_second_arrival_items = _history_is("items/second-arrival-while-items-run")
+F34_overlapping_iteration = _history_is("loop-fork/side-of-iteration-1-still-running")
+F35_default_rerun_fail_command = _history_is("fail-command/default-rerun")
+F36_rerun_branch_above_join = _history_is("join-rerun/task1")
+F37_late_failure_marked_terminal = _history_is("remediated/b-reports-first")
+F38_resume_paused_items = _history_is("items-resume/first-report-requested")
+F39_completion_on_resume_term = _history_is("pause-before-last-report/unreachable-join")
